@@ -270,6 +270,17 @@ def run(ctx):
         chk.bad(R5, IMPORT, 'source reads', 'the objects are not read from the source container', where=f'{fn.module.relpath}:{fn.lineno}')
     else:
         chk.ok(R5, IMPORT, f'{nrecv} container calls', detail=f'reads on `{srcp}`, existence listing / writes / commit on self', evals=nrecv)
+    # requested keys the source lacks are ignored: the bulk read of the source skips missing keys (explicitly, or through the callee's default)
+    for c in reads:
+        sk = next((k.value for k in c.keywords if k.arg == 'skip_if_missing'), c.args[1] if len(c.args) > 1 else None)
+        callee = K.container.methods.get(c.func.attr)
+        dflt = callee.defaults.get('skip_if_missing') if callee is not None else None
+        oksk = (sk is None and isinstance(dflt, ast.Constant) and dflt.value is True) or (isinstance(sk, ast.Constant) and sk.value is True)
+        if oksk:
+            chk.ok(R5, IMPORT, norm(c)[:100], detail='missing source keys are skipped by the bulk reader (skip_if_missing is True)', nontrivial=False)
+        else:
+            chk.bad(R5, IMPORT, norm(c)[:100], 'the source is read without skipping missing keys: a requested key the source lacks yields a None stream and the import aborts instead of ignoring it',
+                    where=f'{fn.module.relpath}:{c.lineno}')
     # the hash types compared to choose the branch are those of the two containers
     htest = [n for n in walk_local(fn.node) if isinstance(n, ast.If) and 'hash_type' in norm(n.test) and isinstance(n.test, ast.Compare)]
     if htest and {norm(htest[0].test.left), norm(htest[0].test.comparators[0])} == {'self.hash_type', f'{srcp}.hash_type'} and isinstance(htest[0].test.ops[0], (ast.Eq, ast.NotEq)):
